@@ -201,6 +201,33 @@ theorem merge_with_schema_list_arm_spec (f : Nat) (lg : Bool) (item : Ty)
                   ((rebasedOffs offs off len).getD i 0) ((rebasedOffs offs off len).getD (i + 1) 0)) :=
   mergeCell_list_spec f lg item lg1 off len nulls offs child lg2 roff rlen rnulls roffs rchild c hwl hwr h
 
+/-- list-of-struct columns present on both sides of `merge_with_schema` (the case lance produces when the fields of a
+    `list<struct>` column live in different data files), ELEMENT BY ELEMENT: wherever the merged list row is non-NULL, its
+    entry has the length of the left entry and its element `k` is `mwsRow` of element `k` of the two input entries.
+    Hypothesis `hsame`: both lists have the same entry lengths (they describe the same rows). -/
+theorem merge_with_schema_list_of_struct_spec (f : Nat) (lg : Bool) (sn : List String) (st : List Ty)
+    (lg1 : Bool) (off len : Nat) (nulls : Option Nulls) (offs : List Nat)
+    (cl : Nat) (cn : Option Nulls) (csn : List String) (csc : List Arr)
+    (lg2 : Bool) (roff rlen : Nat) (rnulls : Option Nulls) (roffs : List Nat)
+    (dl : Nat) (dn : Option Nulls) (dsn : List String) (dsc : List Arr) (c : Arr)
+    (hwl : wf (.list lg1 off len nulls offs (.struct cl cn csn csc)) = true)
+    (hwr : wf (.list lg2 roff rlen rnulls roffs (.struct dl dn dsn dsc)) = true)
+    (hul : uniq (.struct cl cn csn csc) = true) (hur : uniq (.struct dl dn dsn dsc) = true)
+    (hsame : rebasedOffs roffs roff rlen = rebasedOffs offs off len)
+    (h : mergeCell (f + 1) (.list lg (.struct sn st)) (.list lg1 off len nulls offs (.struct cl cn csn csc))
+          (.list lg2 roff rlen rnulls roffs (.struct dl dn dsn dsc)) = .ok c) :
+    ∀ i, i < len → (validAt nulls i || validAt rnulls i) = true →
+      ∃ es, (logical c).getD i .null = .list es ∧
+        es.length = offs.getD (off + i + 1) 0 - offs.getD (off + i) 0 ∧
+        ∀ k, k < es.length → ∀ v,
+          mwsRow csn (tyOfCols csc) dsn (tyOfCols dsc) sn st
+            ((sub (logical (.struct cl cn csn csc)) (offs.getD (off + i) 0) (offs.getD (off + i + 1) 0)).getD k .null)
+            ((sub (logical (.struct dl dn dsn dsc)) (roffs.getD (roff + i) 0) (roffs.getD (roff + i + 1) 0)).getD k .null)
+            = some v →
+          es.getD k .null = v :=
+  mergeCell_list_of_struct_spec f lg sn st lg1 off len nulls offs cl cn csn csc lg2 roff rlen rnulls roffs dl dn dsn dsc c
+    hwl hwr hul hur hsame h
+
 /-! ### fuel: the recursion depth of the model's `merge` / `merge_with_schema` is bounded by the nesting depth -/
 
 /-- with fuel above the nesting depth of the left batch, `mergeStruct` returns the same result for every larger fuel
@@ -279,6 +306,10 @@ example : (mwsRow ["s"] [.struct ["a"] [.int]] ["s"] [.struct ["b"] [.int]] ["s"
 /-- a sliced list column (offsets 2,3,6 of [0,2,3,6]) merged with itself -/
 example : ∃ c, mergeCell 2 (.list false .int) (.list false 1 2 none [0, 2, 3, 6] (.prim false 0 6 none [1, 2, 3, 4, 5, 6]))
     (.list false 1 2 none [0, 2, 3, 6] (.prim false 0 6 none [1, 2, 3, 4, 5, 6])) = .ok c := ⟨_, rfl⟩
+/-- list<struct{x}> on the left, list<struct{y}> on the right, same offsets 1,2,4 (not starting at 0) -/
+example : ∃ c, mergeCell 4 (.list false (.struct ["x", "y"] [.int, .int]))
+    (.list false 0 2 none [1, 2, 4] (.struct 4 none ["x"] [.prim false 0 4 none [1, 2, 3, 4]]))
+    (.list false 0 2 none [1, 2, 4] (.struct 4 none ["y"] [.prim false 0 4 none [5, 6, 7, 8]])) = .ok c := ⟨_, rfl⟩
 example : depth exL + 1 ≤ 64 ∧ 2 * depth exL + 1 ≤ 64 := by decide
 example : wf exR = true ∧ uniq exL = true ∧ uniq exR = true := by decide
 example : ∃ m, mergeWS 64 exL exR ["s"] [.struct ["b", "a"] [.int, .int]] = .ok m := ⟨_, rfl⟩
